@@ -387,6 +387,101 @@ var c07Cases = []c07Case{
 		}
 		return ints(value.Int(half(a)), value.Int(a/2), value.Int(half(-a))), true
 	}, 0},
+	// compositions (the receiver is observed again afterwards)
+	{"comp-top-append", "[l.top(a).append(77), l, l.top(a).append(78)]", func(in c07In) (value.Value, bool) {
+		k := int(in.a)
+		if k > len(in.l) {
+			k = len(in.l)
+		}
+		t := append(append([]value.Int{}, in.l[:k]...), 77)
+		u := append(append([]value.Int{}, in.l[:k]...), 78)
+		return value.NewList(ints(t...), ints(in.l...), ints(u...)), true
+	}, 0},
+	{"comp-skip-set", "[l.skip(1).set(0,77), l, l.skip(1).reverse()]", func(in c07In) (value.Value, bool) {
+		if len(in.l) < 2 {
+			return nil, false
+		}
+		t := append([]value.Int{}, in.l[1:]...)
+		t[0] = 77
+		var r []value.Int
+		for i := len(in.l) - 1; i >= 1; i-- {
+			r = append(r, in.l[i])
+		}
+		return value.NewList(ints(t...), ints(in.l...), ints(r...)), true
+	}, 0},
+	{"comp-accept-map-skip-sum", "l.accept(x->x>a).map(x->x*2).skip(1).top(2).sum()", func(in c07In) (value.Value, bool) {
+		var o []value.Int
+		for _, x := range in.l {
+			if x > in.a {
+				o = append(o, x*2)
+			}
+		}
+		if len(o) < 2 {
+			return nil, false
+		}
+		o = o[1:]
+		if len(o) > 2 {
+			o = o[:2]
+		}
+		var sum value.Int
+		for _, x := range o {
+			sum += x
+		}
+		return sum, true
+	}, 0},
+	{"comp-append-reverse-first", "[l.append(a).reverse().first(), l.append(a+1).last(), l.size()]", func(in c07In) (value.Value, bool) {
+		return ints(in.a, in.a+1, value.Int(len(in.l))), true
+	}, 0},
+	// map methods: receiver {x:m[0], y:m[1], z:a} resp. parts of it
+	{"map-isAvail", `let mp={x:m[0],y:m[1]}; [mp.isAvail("x"), mp.isAvail("q"), mp.isAvail("x","y"), mp.isAvail("q","y"), mp.isAvail("x","q"), mp.isAvail("q","r","x"), mp.isAvail("y","q","x"), mp.isAvail()]`,
+		func(in c07In) (value.Value, bool) {
+			return value.NewList(value.Bool(true), value.Bool(false), value.Bool(true), value.Bool(false), value.Bool(false), value.Bool(false), value.Bool(false), value.Bool(true)), true
+		}, 0},
+	{"map-get", `let mp={x:m[0],y:m[1]}.put("z",a); [mp.get("y"), mp.get("z"), mp.get("x"), mp.x, mp.size(), {}.size()]`, func(in c07In) (value.Value, bool) {
+		return ints(in.m[1], in.a, in.m[0], in.m[0], 3, 0), true
+	}, 0},
+	{"map-get-missing", `{x:m[0],y:m[1]}.get("q")`, func(in c07In) (value.Value, bool) { return nil, false }, 0},
+	{"map-put-existing", `{x:m[0],y:m[1]}.put("y",a).size()`, func(in c07In) (value.Value, bool) { return nil, false }, 0},
+	{"map-list", `let ls={x:m[0],y:m[1],z:a}.list(); [ls.size(), ls.map(e->e.value).sum(), ls.accept(e->e.key="y").map(e->e.value).first(), ls.map(e->e.key).accept(k->k="x"|k="y"|k="z").size()]`,
+		func(in c07In) (value.Value, bool) {
+			return ints(3, in.m[0]+in.m[1]+in.a, in.m[1], 3), true
+		}, 0},
+	{"map-accept", `let r={x:m[0],y:m[1],z:a}.accept((k,v)->v>a | k="z"); [r.size(), r.isAvail("x"), r.isAvail("y"), r.z]`, func(in c07In) (value.Value, bool) {
+		n := value.Int(1)
+		if in.m[0] > in.a {
+			n++
+		}
+		if in.m[1] > in.a {
+			n++
+		}
+		return value.NewList(n, value.Bool(in.m[0] > in.a), value.Bool(in.m[1] > in.a), in.a), true
+	}, 0},
+	{"map-map", `let r={x:m[0],y:m[1]}.map((k,v)->if k="x" then v*2+a else v-a); [r.x, r.y, r.size()]`, func(in c07In) (value.Value, bool) {
+		return ints(in.m[0]*2+in.a, in.m[1]-in.a, 2), true
+	}, 0},
+	{"map-replace", `let r={x:m[0],y:m[1]}.replace(o->{x:o.y+a}); [r.x, r.y, r.size()]`, func(in c07In) (value.Value, bool) {
+		return ints(in.m[1]+in.a, in.m[1], 2), true
+	}, 0},
+	{"map-replaceMap", `{x:m[0],y:m[1]}.replaceMap(o->o.x-o.y*a)`, func(in c07In) (value.Value, bool) {
+		return in.m[0] - in.m[1]*in.a, true
+	}, 0},
+	{"map-combine", `let r={x:m[0],y:m[1]}.combine({y:a,x:1,w:5},(p,q)->p*3-q); [r.x, r.y, r.size()]`, func(in c07In) (value.Value, bool) {
+		return ints(in.m[0]*3-1, in.m[1]*3-in.a, 2), true
+	}, 0},
+	{"map-combine-missing", `{x:m[0],y:m[1]}.combine({x:1},(p,q)->p).size()`, func(in c07In) (value.Value, bool) { return nil, false }, 0},
+	{"map-eval", `let r={x:m[0]}.put("y",m[1]).eval(); [r.x, r.y, r.size(), r.isAvail("x","y"), r.isAvail("y","q")]`, func(in c07In) (value.Value, bool) {
+		return value.NewList(in.m[0], in.m[1], value.Int(2), value.Bool(true), value.Bool(false)), true
+	}, 0},
+	{"map-plus", `let r={x:m[0]}+{y:m[1],z:a}; [r.x, r.y, r.z, r.size()]`, func(in c07In) (value.Value, bool) {
+		return ints(in.m[0], in.m[1], in.a, 3), true
+	}, 0},
+	{"map-plus-common-key", `({x:m[0]}+{x:m[1]}).size()`, func(in c07In) (value.Value, bool) { return nil, false }, 0},
+	{"misuse-isAvail-type", `{x:1}.isAvail("x",3)`, func(in c07In) (value.Value, bool) { return nil, false }, 0},
+	{"misuse-map-get-type", `{x:1}.get(3)`, func(in c07In) (value.Value, bool) { return nil, false }, 0},
+	{"misuse-map-put-type", `{x:1}.put(3,4).size()`, func(in c07In) (value.Value, bool) { return nil, false }, 0},
+	{"misuse-map-accept-arity", `{x:1}.accept(v->true).size()`, func(in c07In) (value.Value, bool) { return nil, false }, 0},
+	{"misuse-map-accept-nonbool", `{x:1}.accept((k,v)->v).size()`, func(in c07In) (value.Value, bool) { return nil, false }, 0},
+	{"misuse-map-combine-notmap", `{x:1}.combine(3,(p,q)->p).size()`, func(in c07In) (value.Value, bool) { return nil, false }, 0},
 	// misuse yields errors
 	{"misuse-reduce-arity", "l.reduce(x->x)", func(in c07In) (value.Value, bool) { return nil, false }, 0},
 	{"misuse-map-notfunc", "l.map(3)", func(in c07In) (value.Value, bool) { return nil, false }, 0},
@@ -419,6 +514,9 @@ func c07Jobs(tier string, seed int64) []string {
 	}
 	for _, c := range c07Cases {
 		for n := c.minN; n <= maxN; n++ {
+			if n > c.minN && (strings.HasPrefix(c.name, "map-") || strings.HasPrefix(c.name, "misuse-map") || c.name == "misuse-isAvail-type") {
+				break // the receiver list is not used by the map cases
+			}
 			if tier != "thorough" && n == 2 && c.ref != nil && !strings.HasPrefix(c.name, "combine") {
 				continue
 			}
@@ -456,7 +554,7 @@ func c07Run(job string) {
 	in.m = []value.Int{value.Int(sym.Int64("m0")), value.Int(sym.Int64("m1"))}
 	a := sym.Int64("a")
 	sym.Assume(sym.And(a >= -2, a <= 6))
-	if name == "top" {
+	if name == "top" || name == "comp-top-append" {
 		sym.Assume(a >= 0)
 	}
 	in.a = value.Int(a)
